@@ -25,7 +25,7 @@ func init() {
 	setTier("C04", 30000, 400, 1500000, 1800)
 	levelOf["C04"] = "fault_enumeration"
 	addressSpaceLimit["C04"] = 8 << 30
-	ruleOf["C04"] = "one run = one valid encoding generated from the tape (a value of any of the 21 tags nested to depth 3, a registered pack, an unregistered SM pack, a step stream, a transaction record, an int-int map or a typed list) subjected to (a) truncation at EVERY byte offset, decoded both from a buffer and through a simulated connection that delivers seeded fragments and then EOF/reset, and (b) overwrite of every byte with {00,7f,80,fe,ff} plus 4-byte and 8-byte big-endian hostile length patterns at every offset (exhaustive up to 256 bytes, strided above); evaluations = runs; distinct_nontrivial = distinct cells (decoder kind, fault kind, offset class, outcome) reached, every one of which executed real decoder code on a faulty input"
+	ruleOf["C04"] = "one run = one valid encoding generated from the tape (a value of any of the 21 tags nested to depth 3, a registered pack, an unregistered SM pack, a step stream, a transaction record, an int-int map or a typed list) subjected to (a) truncation at every byte offset (for encodings above 1 KiB: every offset in the first 256 and last 64 bytes, strided in between), decoded both from a buffer and through a simulated connection that delivers seeded fragments and then EOF/reset, and (b) overwrite of every byte with {00,7f,80,fe,ff} plus 4-byte and 8-byte big-endian hostile length patterns at every offset (exhaustive up to 256 bytes, strided above); evaluations = runs; distinct_nontrivial = distinct cells (decoder kind, fault kind, offset class, outcome) reached, every one of which executed real decoder code on a faulty input"
 	assumptionsOf["C04"] = []string{
 		"a decoder that returns normally on a strict prefix is legitimate only if it did not read past the end of the prefix (Available() >= 0) and the connection mode, which can only hand out bytes it has, also returns normally; this decides the 'complete older version' exception behaviourally",
 		"memory bound per decode: bytes allocated (runtime/metrics /gc/heap/allocs:bytes delta) <= 4 MiB + 64 x len(input) (the constant absorbs 16-bit count fields and the per-P lag of the allocation counter; a measurement above the bound is confirmed by decoding the same input again); hostile length patterns are capped at 2^27 so that a violating allocation stays survivable inside the worker process",
@@ -35,7 +35,7 @@ func init() {
 	realComponents["C04"] = []string{"io.DataInputX (buffer mode and NewDataInputNet mode)", "value.ReadValue (21 tags)", "pack.ReadPack (all registered packs)", "SM pack Read methods", "step.ReadStep", "service.TxRecord.ToObject", "hmap.IntIntMap.ToObject", "list.IntList/StringList/LongList Read"}
 	stubComponents["C04"] = []string{"net.Conn byte source (simnet pipe: seeded fragmentation, EOF or reset at the truncation offset)"}
 	probesFor["C04"] = []string{"read_fragmented", "unknown_tag_hit", "trunc_panicked", "overwrite_panicked", "overwrite_decoded"}
-	register(&Scenario{Prop: "C04", Name: "decode", MaxSteps: 50000000, Body: c04Body, After: c04After})
+	register(&Scenario{Prop: "C04", Name: "decode", MaxSteps: 50000000, Body: c04Body, After: c04After, StepcapIsViolation: true})
 }
 
 type c04Case struct {
@@ -194,6 +194,17 @@ func c04Pack() (pack.Pack, string) {
 		x.SetStack([]int32{5, 6, 7})
 	case *pack.LogSinkZipPack:
 		x.SetRecords(make([]byte, []int{0, 10, 200}[simrt.Choose(3)]), 100)
+	case *pack.StatUserAgentPack:
+		// sometimes exactly full (the table is bounded): one more entry must evict; keys are
+		// hashes, so any int32 occurs, negative ones included
+		n := []int{0, 3, 3, 3, 3, pack.STAT_USERAGENT_TABLE_MAX_SIZE}[simrt.Choose(6)]
+		for i := 0; i < n; i++ {
+			k := int32(1000 + i)
+			if i == 0 || simrt.Chance(1, 4) {
+				k = -k
+			}
+			x.UserAgents.Put(k, int32(i))
+		}
 	case *pack.StatGeneralPack:
 		l := list.NewIntListDefault()
 		l.AddInt(simrt.Choose(100))
@@ -225,7 +236,24 @@ var c04StepTypes = []byte{step.STEP_METHOD_X, step.STEP_SQL_X, step.STEP_RESULTS
 
 // c04Gen draws one valid encoding and the decoder that must consume it.
 func c04Gen() (c04Case, []byte, func(in *wio.DataInputX)) {
-	switch simrt.Choose(11) {
+	switch simrt.Choose(12) {
+	case 11:
+		// a container whose inner packs are decoded by a second pass (ZipPack.GetRecords):
+		// bytes FOLLOW each inner pack, so an inner count can be raised without running dry
+		var inner []pack.Pack
+		names := ""
+		for i := 0; i < 1+simrt.Choose(3); i++ {
+			p, nm := c04Pack()
+			inner = append(inner, p)
+			names += nm + " "
+		}
+		z := pack.NewZipPack()
+		z.SetRecords(inner)
+		return c04Case{Kind: "ziprecords", Desc: strings.TrimSpace(names)}, pack.ToBytesPack(z), func(in *wio.DataInputX) {
+			if zp, ok := pack.ReadPack(in).(*pack.ZipPack); ok {
+				zp.GetRecords()
+			}
+		}
 	case 10:
 		// UDP tracer packs: decoded with an explicit type and protocol version
 		t := c04UdpTypes[simrt.Choose(len(c04UdpTypes))]
@@ -335,6 +363,9 @@ type c04Out struct {
 }
 
 func c04Decode(b []byte, dec func(*wio.DataInputX)) (o c04Out) {
+	// termination: one decode may take a number of simulator steps proportional to its
+	// input (instrumented containers yield at every statement), never unboundedly many
+	simrt.SetStepBudget(3000000 + 4000*int64(len(b)))
 	in := wio.NewDataInputX(b)
 	before := allocBytes()
 	defer func() {
@@ -352,6 +383,7 @@ func c04Decode(b []byte, dec func(*wio.DataInputX)) (o c04Out) {
 
 // c04DecodeConn decodes through a simulated connection that holds exactly b and then ends.
 func c04DecodeConn(b []byte, end int, dec func(*wio.DataInputX)) (o c04Out, delivered int) {
+	simrt.SetStepBudget(3000000 + 4000*int64(len(b)))
 	conn, srv := simnet.NewPipe()
 	srv.Feed(b, end)
 	in := wio.NewDataInputNet(conn)
@@ -430,7 +462,14 @@ func c04Body(rc *RunCtx) {
 	bound := func(n int) uint64 { return 4<<20 + 64*uint64(n) }
 	n := len(enc)
 	// (a) truncation at every offset, buffer mode and connection mode
+	tstride := 1
+	if n > 1024 {
+		tstride = n / 300 // long encodings: every offset near both ends, strided in between
+	}
 	for k := 0; k < n && !stop; k++ {
+		if tstride > 1 && k >= 256 && k < n-64 && k%tstride != 0 {
+			continue
+		}
 		pre := enc[:k]
 		ob := c04Decode(pre, dec)
 		if ob.alloc > bound(k) {
@@ -466,6 +505,9 @@ func c04Body(rc *RunCtx) {
 	if n > 256 {
 		stride = n / 200
 	}
+	if n > 2000 {
+		stride = n / 60
+	}
 	check := func(fault string, i int, mut []byte) {
 		if stop {
 			return
@@ -498,7 +540,10 @@ func c04Body(rc *RunCtx) {
 		cell(fault, cls, "decoded")
 	}
 	mut := make([]byte, n)
-	for i := 0; i < n && !stop; i += stride {
+	for i := 0; i < n && !stop; i++ {
+		if i >= 96 && i%stride != 0 {
+			continue // headers and leading count fields exhaustively, the body strided
+		}
 		for _, v := range []byte{0x00, 0x7f, 0x80, 0xfe, 0xff} {
 			if enc[i] == v {
 				continue
